@@ -45,6 +45,8 @@ def collect(ctx, sub="c01", extra=()):
             d["src"] = vlib.unesc(r[2])
         elif r[1] == "STAGE":
             d["stages"][r[2]] = r[3]
+        elif r[1] == "PPRINT":
+            d["pprint"] = (r[2], vlib.unesc(r[3]) if len(r) > 3 else "")
         elif r[1] == "REJECT":
             d["reject"] = (r[2], r[3] if len(r) > 3 else "")
             d["src"] = vlib.unesc(r[4]) if len(r) > 4 else None
@@ -90,6 +92,7 @@ def run(ctx):
     progs = evaluate(ctx, progs)
     gc = gocheck(ctx, [f"{pid}\t{d['stages']['go']}" for pid, d in progs.items() if "go" in d["stages"]])
     n_invalid_go = 0
+    n_pprint = 0
     n_prog = n_agree = n_exp = n_exp_ok = n_fuel = n_extern = 0
     samples, distinct = [], set()
     for pid, d in progs.items():
@@ -103,6 +106,14 @@ def run(ctx):
         if any(v[0] in ("decode-error", "parse-error") for v in o.values()):
             ctx.broken_ties.append(("dump decoder", f"{pid}: {[(k, v[0]) for k, v in o.items() if v[0].endswith('error')]}"))
             continue
+        # printer tie: parse(print(ast)) must be the AST the semantics and the checker were given
+        pp = d.get("pprint")
+        if pp is not None:
+            n_pprint += 1
+            if pp[0] != "ok":
+                ctx.report({"oracle": "go-printer", "kind": pp[0]},
+                           "the printed Go text does not parse back to the Go AST it was printed from",
+                           {"id": pid, "src": d.get("src"), "detail": pp[1][:600]})
         if gc.get(pid, ("ok",))[0] == "err":
             # not valid Go: whether it is accepted is C02's question; it has no Go behaviour to compare
             n_invalid_go += 1
@@ -174,7 +185,7 @@ def run(ctx):
         "rule": "one program = 82-program corpus (74 single-file pipeline programs here) + type-directed generated programs over the feature lattice; every accepted program's real "
                 "Core/Mono/Lift/ANF dumps run under Sem and its real Go AST under Go.Sem; non-trivial = prints something; distinct by stdout and Go size",
         "all_stages_agree": n_agree, "with_recorded_output": n_exp, "recorded_output_reproduced": n_exp_ok,
-        "fuel_exhausted(skipped)": n_fuel, "rejected_by_gocheck(owned by C02)": n_invalid_go, "programs_with_extern_calls(compared up to events)": n_extern,
+        "printed_go_parsed_back_to_ast": n_pprint, "fuel_exhausted(skipped)": n_fuel, "rejected_by_gocheck(owned by C02)": n_invalid_go, "programs_with_extern_calls(compared up to events)": n_extern,
         "generator_rejected": rejected, "compiler_panics_seen(owned by C04)": len(panics),
         "generator_features": feats,
     }
@@ -182,7 +193,7 @@ def run(ctx):
         "Sem (lean/GomlVerif/Model/Sem.lean) is the source-level meaning; Go.Sem (Model/GoSem.lean) is our reading of the Go spec for the emitted subset, validated against the outputs recorded from real Go",
         "`go`: compared under the schedule that runs a spawned activation to completion at the spawn; real goroutine interleavings are outside the model",
         "floats: Go's shortest float formatting is not modelled; programs printing floats are compared only between stages that share the same formatting function",
-        "the goast dump is taken before pretty-printing: go_pprint.rs is not covered here",
+        "go_pprint.rs is tied separately: the printed text of every program is parsed back by harness/src/goparse.rs (Go precedence, composite-literal rule) and must equal the AST with expression type annotations erased",
     ]
     tb = ["Lean 4 (compiled model executable)", "Sem/Go.Sem definitions", "harness/src/dump.rs, godump.rs (IR serialisers)", "tools/props/c01.py"]
     return ctx.finish("translation_validation", cov, tb, "gomlmodel sem (Lean-compiled Sem / Go.Sem on the real stage dumps)")
